@@ -16,7 +16,7 @@ RULE = ("exhaustive: all 2^n presence masks for n<=10 (quick) / n<=12 (thorough)
         "(3D marker, EMG, force/torque, platform data), as single track and inside 3-track blocks; seeded masks up to 5000 frames; "
         "segment tables parsed from the real bytes by an independent struct parser; each block decoded twice with the allocator "
         "dirtied by same-sized non-NaN arrays; plus in-place transitions: one track object, already printed/sized/encoded with mask m1, "
-        "[plus rows with NaN/+-inf in single components: table canonical, rows outside the runs read as NaN, rows inside keep their bits; table = the model's `see`] edited through its arrays to mask m2 and written again - every ordered pair (m1, m2) for n<=4 (thorough 5), seeded pairs up to 1100 frames. non-trivial = mask with >=1 gap and >=1 present frame; distinct by (kind, mask)")
+        "[plus single runs of 65535..65538 frames (thorough: up to 262145) that do not start at frame 0] [plus rows with NaN/+-inf in single components: table canonical, rows outside the runs read as NaN, rows inside keep their bits; table = the model's `see`] edited through its arrays to mask m2 and written again - every ordered pair (m1, m2) for n<=4 (thorough 5), seeded pairs up to 1100 frames. non-trivial = mask with >=1 gap and >=1 present frame; distinct by (kind, mask)")
 ASSUMPTIONS = ["uninitialised memory cannot be exhibited by the Lean model; that half is exploration of the real decoder (dirty-heap double decode)"]
 KINDS = ["data3d", "emg", "force3d", "platdata"]
 
@@ -101,6 +101,30 @@ def morph(kind, obj, frames_list):
                     vals = A.f32(f[col:col + w])
                     B._w(it, attr, i, vals[0] if arr.ndim == 1 else vals)
                 col += w
+
+
+def long_runs_family(ctx):
+    """single runs at and just past buffer-like lengths (2^16 frames and neighbours; thorough also 2^17, 2^18) that do NOT start at
+    frame 0, and two such runs in one track: where a decoder that reads long runs piecewise would misplace the pieces"""
+    rng = ctx.rng
+    lens = [65535, 65536, 65537, 65538] + ([131072, 131073, 262145] if ctx.thorough else [])
+    jobs = []
+    for kind in KINDS:
+        k = A.NCOMP[kind]
+        for L in (lens if kind == "emg" or ctx.thorough else lens[1:3]):
+            row = [A.gen_f32(rng) for _ in range(k)]
+            row2 = [A.gen_f32(rng) for _ in range(k)]
+            lead = rng.choice([1, 3, 17])
+            frames = [None] * lead + [list(row) for _ in range(L - 1)] + [list(row2)] + [None] * rng.choice([0, 2])
+            jobs.append((kind, [frames]))
+        if kind == "emg":
+            frames = [None] * 2 + [[7]] * 65537 + [None] * 5 + [[9]] * 65540 + [None]
+            jobs.append((kind, [frames]))
+    replies = common.drv_batch([[Sym("rle.runs"), [Sym("none") if f is None else f for f in fl[0]]] for _, fl in jobs])
+    for (kind, fl), mt in zip(jobs, replies):
+        v = block_with_tracks(kind, rng, fl)
+        ctx.case((kind, "long-run", len(fl[0])), nontrivial=True, tags=(kind, "long-run"))
+        check_case(ctx, kind, v, fl, [mt])
 
 
 def raw_rows_family(ctx, n):
@@ -270,6 +294,7 @@ def run(ctx):
         v2 = A.norm(A.absv(kind, obj))
         check_case(ctx, kind, v2, fl2, mt, obj=obj, came_from=masks1)
     raw_rows_family(ctx, ctx.n(250, 5000))
+    long_runs_family(ctx)
     cmds = []
     for kind, fl in jobs:
         for fr in fl:
